@@ -131,6 +131,12 @@ class DDict(dict):
     factory = None
 
 
+class HashOrdered(list):
+    """a list whose element order was taken from iterating a set with two or more hash-randomised members (list(a_set),
+    [.. for x in a_set]): its order - hence its str() - differs between interpreter runs until it is sorted"""
+    settled = False
+
+
 class Opaque:
     """a value the interpreter does not model (strings built by formatting, external objects)"""
 
@@ -1079,6 +1085,8 @@ class Interp:
             if len(v) <= 1:
                 return "{" + ", ".join(self._reprs(v, depth)) + "}" if v else "set()"
             return Opaque("str() of a set depends on hash order")
+        if isinstance(v, HashOrdered) and not v.settled and len(v) > 1:
+            return Opaque("str() of a list built from a set depends on hash order")
         if isinstance(v, list):
             return "[" + ", ".join(self._reprs(v, depth)) + "]"
         if isinstance(v, tuple):
@@ -1247,6 +1255,8 @@ class Interp:
                     return Opaque("str")
                 return o.format(*cargs, **ckw)
             if name == "join":
+                if isinstance(args[0], HashOrdered) and not args[0].settled and len(args[0]) > 1:
+                    return Opaque("join of a list built from a set depends on hash order")
                 items = self.iterate(args[0])
                 if all(isinstance(a, str) for a in items):
                     return o.join(items)
@@ -1270,7 +1280,13 @@ class Interp:
                         break
             if name == "sort" and isinstance(o, list):
                 o[:] = self.builtin("sorted", [o], kwargs, func, depth)
+                if isinstance(o, HashOrdered):
+                    o.settled = True
                 return None
+            if type(o).__module__ in ("_hashlib", "hashlib", "_md5"):
+                for a in args:
+                    if isinstance(a, Opaque):
+                        raise Uninterpretable(f"{type(o).__name__}.{name} on {a!r}")
             try:
                 return getattr(o, name)(*args, **kwargs)
             except TypeError as ex:
@@ -1294,6 +1310,9 @@ class Interp:
                 if isinstance(a, _Gen):
                     return list(a.items)
                 return a
+            for a in list(args) + list(kwargs.values()):
+                if isinstance(a, Opaque):
+                    raise Uninterpretable(f"native call on {a!r}")
             try:
                 res = f[1](*[wrap(a) for a in args], **{k: wrap(v) for k, v in kwargs.items()})
             except TypeError as ex:
@@ -1357,7 +1376,7 @@ class Interp:
         if isinstance(f, tuple) and f and f[0] == "builtin":
             return self.builtin(f[1], args, kwargs, func, depth)
         if isinstance(f, Opaque):
-            return Opaque("call")
+            return Opaque(f"{f.what}()")
         raise Uninterpretable(f"call of {f!r}")
 
     def builtin(self, name, args, kwargs, func, depth):
@@ -1471,6 +1490,8 @@ class Interp:
             if name in ("set", "frozenset"):
                 return self._dedupe(items, depth)
             if name == "list":
+                if args and isinstance(args[0], SetVal) and len(items) > 1 and not all(isinstance(x, (int, float, type(None))) for x in items):
+                    return HashOrdered(items)
                 return list(items)
             return tuple(items) if name == "tuple" else list(items)
         if name == "sorted":
